@@ -720,13 +720,14 @@ class BaseTaskPool:
                 return_exceptions=return_exceptions,
             )
         self._meta_tasks_cancelled.clear()
-        await gather(
-            *self._tasks_ended.values(),
-            *self._tasks_cancelled.values(),
-            return_exceptions=return_exceptions,
-        )
-        self._tasks_ended.clear()
-        self._tasks_cancelled.clear()
+        # More tasks may end or get cancelled while we wait here (and may then
+        # still be busy with their callbacks), so only the tasks actually
+        # gathered are forgotten afterwards.
+        gathered = {**self._tasks_ended, **self._tasks_cancelled}
+        await gather(*gathered.values(), return_exceptions=return_exceptions)
+        for task_id in gathered:
+            self._tasks_ended.pop(task_id, None)
+            self._tasks_cancelled.pop(task_id, None)
 
     async def gather_and_close(
         self,
